@@ -305,6 +305,7 @@ BYTES = [B(""), B("a"), B("\xff\x00"), B("a\nb"), B("'\"\\"), B("z" * 80 + "\n\x
 SCALARS = TEXTS + BYTES + [0, 1, -1, None]
 MESSAGES = ["", "note: é\x01 'q'"]
 PRES = [[], ["info", "Failed expectation", "info-1"]]
+PRES_API = PRES + [["info", "info-2"], ["info", "info-3", "Failed expectation", "Failed expectation-2"]]   # non-contiguous numbering
 APIS = ["assertThat", "assert_that", "expectThat"]
 COUNTER = itertools.count()
 LEAVES = [["Equals", "é"], ["Never"], ["Always"], ["StartsWith", "a\n"], ["Contains", "'"], ["MatchesRegex", "\\w+$"],
@@ -338,7 +339,7 @@ def gen_api():
                     ["Annotate", "why", ["Detailed", "desc", {"d": {"info": "x", "traceback": "tb"}}]],
                     ["AfterPreprocessing", {"fn": "identity"}, ["Detailed", "desc", {"d": {"info-1": "y"}}]],
                     ["Detailed", "plain", {"d": {}}], ["Equals", "match"], ["Never"]):
-        for value, api, vb, msg, rep, pre in itertools.product(("match", "other\né"), APIS, (False, True), MESSAGES, (1, 2, 3), PRES):
+        for value, api, vb, msg, rep, pre in itertools.product(("match", "other\né"), APIS, (False, True), MESSAGES, (1, 2, 3), PRES_API):
             yield {"kind": "match", "matcher": matcher, "value": value, "api": api, "verbose": vb,
                    "message": msg, "repeat": rep, "pre": pre}
 
